@@ -47,7 +47,9 @@ class Tap(object):
 class Net(object):
     """Registry of server entities by (host, port); installs the fsm.socket shim."""
 
-    def __init__(self):
+    def __init__(self, batch=None):
+        self.batch = batch       # seconds: what the accepting side writes reaches the requesting side in batches (a
+                                 # relay collects for that long and then delivers everything in ONE segment)
         self.servers = {}
         self.links = []          # one dict per connection: {'log': [...], 'server_thread': t, 'addr': addr}
         self._saved = None
@@ -70,6 +72,8 @@ class Net(object):
                 if ae is None:
                     raise ConnectionRefusedError(111, 'no such verification server %r' % (addr,))
                 a, b = _socket.socketpair()
+                if net.batch:
+                    a, b = _relay(a, b, net.batch)
                 log = []
                 link = {'log': log, 'addr': tuple(addr), 'done': threading.Event(), 'error': None}
                 self._tap = Tap(a, log, 'R')
@@ -121,6 +125,75 @@ class Net(object):
         for l in list(self.links):
             ok = l['done'].wait(timeout) and ok
         return ok
+
+
+def _relay(a, b, batch):
+    """Put a relay between the two ends: requesting -> accepting direction is passed on at once, accepting ->
+    requesting direction is collected for `batch` seconds and delivered in one write (several PDUs per segment,
+    as a busy network or a proxy does).  Returns the two outer ends."""
+    import select as _select
+    # topology:  requester [req_end] <-> [a2] relay [b2] <-> [acc_end] acceptor   (the pair handed in is not used)
+    a2, req_end = _socket.socketpair()
+    b2, acc_end = _socket.socketpair()
+    a.close()
+    b.close()
+
+    def pump():
+        pending = b''
+        deadline = None
+        open_a, open_b = True, True
+        while open_a or open_b:
+            timeout = 0.05 if deadline is None else max(0.0, deadline - time.time())
+            rl = [s for s, o in ((a2, open_a), (b2, open_b)) if o]
+            try:
+                ready = _select.select(rl, [], [], timeout)[0] if rl else []
+            except (OSError, ValueError):
+                break
+            for s in ready:
+                try:
+                    data = s.recv(65536)
+                except OSError:
+                    data = b''
+                if s is a2:
+                    if data:
+                        try:
+                            b2.sendall(data)
+                        except OSError:
+                            pass
+                    else:
+                        open_a = False
+                        try:
+                            b2.shutdown(_socket.SHUT_WR)
+                        except OSError:
+                            pass
+                else:
+                    if data:
+                        pending += data
+                        if deadline is None:
+                            deadline = time.time() + batch
+                    else:
+                        open_b = False
+                        deadline = time.time()
+            if deadline is not None and time.time() >= deadline:
+                if pending:
+                    try:
+                        a2.sendall(pending)
+                    except OSError:
+                        pass
+                    pending = b''
+                deadline = None
+                if not open_b:
+                    try:
+                        a2.shutdown(_socket.SHUT_WR)
+                    except OSError:
+                        pass
+        for s in (a2, b2):
+            try:
+                s.close()
+            except OSError:
+                pass
+    threading.Thread(target=pump, daemon=True).start()
+    return req_end, acc_end
 
 
 def pdus_of(log, side):
